@@ -429,6 +429,7 @@ def _replay_rules(facts, R):
                 "swap_remove_front", "insert", "push_front", "rotate_left", "rotate_right", "swap", "make_contiguous", "iter_mut", "append",
                 "front_mut", "back_mut", "get_mut", "range_mut", "extend", "resize", "as_mut_slices")
     n_pop = 0
+    n_bounded = 0
     n_push = 0
     for w in field_writes(facts, RING, "chunks"):
         b = w["body"]
@@ -477,11 +478,20 @@ def _replay_rules(facts, R):
             n_pop += 1
             fs = facts_at(b, sym, facts, i)
             over = has_cmp(fs, "Lt", lambda a: _is_f(a, "capacity_bytes"), lambda x: _is_f(x, "bytes_held"))
-            keep1 = has_cmp(fs, "Lt", lambda a: const_val(a) == 1, lambda x: is_call(x, "len") and _is_f(x[2][0], "chunks")) or \
-                has_cmp(fs, "Le", lambda a: const_val(a) == 2, lambda x: is_call(x, "len") and _is_f(x[2][0], "chunks"))
-            R.check(b.path == RING + "::push" and over and keep1, "evict-discipline", b.path, "pop_front-guards",
-                    "pop_front must sit in ReplayRing::push under bytes_held > capacity_bytes (%s) and chunks.len() > 1 (%s); guards: %s"
-                    % (over, keep1, texts(fs)), t.get("span"), "evicts only while over capacity and more than one chunk is held")
+            def _ge1(a):
+                # a bound that is at least 1: the literal, or max(_, k) with k >= 1
+                if const_val(a) is not None:
+                    return const_val(a) >= 1
+                return is_call(a, "max") and len(a[2]) == 2 and any(const_val(z) is not None and const_val(z) >= 1 for z in a[2])
+            keep1 = has_cmp(fs, "Lt", _ge1, lambda x: is_call(x, "len") and _is_f(x[2][0], "chunks")) or \
+                has_cmp(fs, "Le", lambda a: const_val(a) is not None and const_val(a) >= 2, lambda x: is_call(x, "len") and _is_f(x[2][0], "chunks"))
+            if b.path == RING + "::push" and over and keep1:
+                n_bounded += 1
+            # every eviction site, whatever policy decides it (the byte bound in push, a chunk-count cap, releasing acknowledged chunks), leaves the
+            # most recent chunk in the ring; the byte bound itself must still be enforced in push (floor below)
+            R.check(keep1, "evict-discipline", b.path, "pop_front-guards",
+                    "pop_front is not guarded by chunks.len() > 1 (over capacity: %s): an eviction can empty the ring, and an empty ring is read as a fresh file by "
+                    "covers(); guards: %s" % (over, texts(fs)), t.get("span"), "evicts only while more than one chunk is held")
             # paired with subtract of the popped chunk's wire length on the Some edge
             subs = []
             for w2 in field_writes(facts, RING, "bytes_held"):
@@ -509,7 +519,8 @@ def _replay_rules(facts, R):
         else:
             R.bad("evict-discipline", b.path, "chunks." + nm, "unrecognised mutable use of ring chunks: %s" % nm, t.get("span"))
     R.exact("evict-discipline", n_push, 1, "push_back sites")
-    R.exact("evict-discipline", n_pop, 1, "pop_front sites")
+    R.floor("evict-discipline", n_pop, 1, "pop_front sites")
+    R.floor("evict-discipline", n_bounded, 1, "eviction sites in ReplayRing::push under bytes_held > capacity_bytes && chunks.len() > 1")
     # ring mutated only via TransferControl::{push_replay, advance_to_file}
     for b, i, t in facts.calls_to(RING + "::push"):
         R.check(b.path == TC + "::push_replay", "evict-discipline", b.path, "ring.push caller", "ReplayRing::push called from " + b.path, t.get("span"))
